@@ -187,10 +187,10 @@ def run(ctx):
     directed = W.directed_worlds()
     if quick:
         r2 = ctx.rng.fork(151)
-        directed = [directed[r2.below(len(directed))] for _ in range(140)]
+        directed = [directed[r2.below(len(directed))] for _ in range(60)]
     for name, text in directed:
         worlds.append(("directed", name, text))
-    rws, rej = witgen.gen_valid_worlds(ctx.rng.fork(15), 110 if quick else 2500, W.random_opts)
+    rws, rej = witgen.gen_valid_worlds(ctx.rng.fork(15), 60 if quick else 2500, W.random_opts)
     for i, w in enumerate(rws):
         worlds.append(("random", "random:%d" % i, w.text))
     valid = vf.run_filter([exe, "valid"], [enc(("", "", None, t)) for _, _, t in worlds])
@@ -295,30 +295,50 @@ def run(ctx):
         else:
             p["differing"] += 1
             diff_cases.append(i)
-    # classify every differing case by its key (needs the file contents: regenerate until two processes differ)
+    # classify every differing case from the per-file hashes of the bulk passes: which files differ, and whether the
+    # difference is a pure reordering of lines (line-multiset hash equal) or a change of content
+    def file_table(line):
+        tab = {}
+        for part in line.split(" ")[1:]:
+            f = part.split("\x1d")
+            tab[f[0].replace("\x1c", " ")] = (f[1], f[2], f[3], f[4] if len(f) > 4 else "")
+        return tab
     classes = {}
-    budget = 60 if quick else 400
-    for i in sorted(diff_cases, key=lambda i: len(cases[i][3]))[:budget]:
-        ks, pair = differs(exe, cases[i], tries=10)
-        for k in ks:
-            cl = classes.setdefault(k, {"n": 0, "case": None, "pair": None})
+    for i in diff_cases:
+        lang, wit = cases[i][0], cases[i][3]
+        outs = [r[i] for r in runs]
+        kinds = {o.split(" ")[0] for o in outs}
+        keys = set()
+        if kinds != {"ok"}:
+            keys.add("%s:outcome:%s" % (lang, "-vs-".join(sorted(kinds))))
+        else:
+            w = world_name(wit)
+            tabs = [file_table(o) for o in outs]
+            for n in sorted(set().union(*[set(tb) for tb in tabs])):
+                vals = [tb.get(n) for tb in tabs]
+                if any(v is None for v in vals):
+                    keys.add("%s:%s:file-set" % (lang, norm_path(n, w)))
+                elif len(set(vals)) > 1:
+                    kind = "reorder" if len({v[3] for v in vals}) == 1 and len({v[0] for v in vals}) == 1 else "content"
+                    keys.add("%s:%s:%s" % (lang, norm_path(n, w), kind))
+        for k in keys:
+            cl = classes.setdefault(k, {"n": 0, "case": None})
             cl["n"] += 1
-            if cl["case"] is None or len(cases[i][3]) < len(cl["case"][3]):
-                cl["case"], cl["pair"] = cases[i], pair
-    if diff_cases and not classes:
-        ctx.tie_broken("differential", "%d cases differed between processes in the hash pass but could not be reproduced for classification" % len(diff_cases))
+            if cl["case"] is None or len(wit) < len(cl["case"][3]):
+                cl["case"] = cases[i]
     for key in sorted(classes):
         cl = classes[key]
         case = cl["case"]
         known = ctx.known.is_known(ctx.prop, key)
-        text = case[3] if known else shrink_world(exe, case, key)
-        ks, pair = differs(exe, (case[0], case[1], None, text), tries=12)
-        where = ""
-        if pair and pair[0][0] == "ok" and pair[1][0] == "ok":
-            for n in sorted(pair[0][1]):
-                if n in pair[1][1] and pair[0][1][n] != pair[1][1][n] and isinstance(pair[0][1][n], str):
-                    where = "%s: %s" % (n, first_diff(pair[0][1][n], pair[1][1][n]))
-                    break
+        text, where = case[3], ""
+        if not known:       # new class: shrink the world and show the first differing line
+            text = shrink_world(exe, case, key)
+            ks, pair = differs(exe, (case[0], case[1], None, text), tries=12)
+            if pair and pair[0][0] == "ok" and pair[1][0] == "ok":
+                for n in sorted(pair[0][1]):
+                    if n in pair[1][1] and pair[0][1][n] != pair[1][1][n] and isinstance(pair[0][1][n], str):
+                        where = "%s: %s" % (n, first_diff(pair[0][1][n], pair[1][1][n]))
+                        break
         ctx.violation(key, "%s generator (options %r) produces different output in different processes for the same world (%d cases in this class this run). %s\nWorld:\n%s"
                       % (case[0], case[1], cl["n"], where, text),
                       {"engine": "hash", "lang": case[0], "opts": case[1], "wit": text, "key": key})
@@ -334,7 +354,7 @@ def run(ctx):
                    + [{"class": k, "cases": v["n"]} for k, v in sorted(classes.items())[:4]],
         "traces_validated_against_impl": n_pkg_lists + n_merge,
         "model_mismatches": len(kmis),
-        "explanation": "PROVED (Coq, closed under the global context): for each modelled hash-iteration site the emitted text is invariant under permutation of the iteration order (sort uniqueness for any total antisymmetric order; MoonBit moon.pkg.json import and export lists; collect_equal_types merge; Files/BTreeMap), and the line-by-line emission without an ordering step (MoonBit builtins / export impls) is proved order-DEPENDENT. The site list is re-scanned from the source on every run (%d sites, %d HashMap/HashSet mentions) and must equal corpus/C15-sites.txt. DIFFERENTIAL ONLY (not proved): the statement for the 8 whole generators — %d (backend, options, world) cases each generated in %d separate processes and byte-compared via hashes." % (len(sites), ndecl, len(cases), nproc),
+        "explanation": "PROVED (Coq, closed under the global context): for each modelled hash-iteration site the emitted text is invariant under permutation of the iteration order (sort uniqueness for any total antisymmetric order; MoonBit moon.pkg.json import and export lists; collect_equal_types merge; Files/BTreeMap), and the line-by-line emission without an ordering step (C# world-level enums and function-less resources; formerly MoonBit builtins / export wrappers, repaired in /repo) is proved order-DEPENDENT. The site list is re-scanned from the source on every run (%d sites, %d HashMap/HashSet mentions) and must equal corpus/C15-sites.txt. DIFFERENTIAL ONLY (not proved): the statement for the 8 whole generators — %d (backend, options, world) cases each generated in %d separate processes and byte-compared via hashes." % (len(sites), ndecl, len(cases), nproc),
         "proved_part": {"theorems": THEOREMS, "sites_scanned": len(sites), "site_classes": class_hist, "new_sites": new_sites, "gone_sites": gone_sites,
                         "sites_without_ordering_step": unordered_sites, "hash_typed_fields_by_crate": names,
                         "moon_pkg_files_seen": n_pkg, "moon_pkg_lists_compared_with_model": n_pkg_lists,
@@ -369,6 +389,6 @@ def replay(ctx, path):
 META = {
     "engine": "coq+genlib",
     "technique": "Coq proofs of permutation-invariance of every modelled hash-iteration emission site (sort uniqueness, BTreeMap, commutative merge) + refutation for the sites without an ordering step; source scan keeps the site list honest; model/real comparison at the modelled points; whole-generator statement by multi-process differential generation",
-    "text": "Proved: the MoonBit moon.pkg.json import/export lists, the collect_equal_types merge and Files iteration do not depend on HashMap iteration order; a hash collection emitted line by line without sorting does (MoonBit ffi builtins and export impls: finding). Differential only: each of the 8 generators x option variants generated in 4 separate processes on corpus, directed and random worlds and byte-compared.",
+    "text": "Proved: the MoonBit moon.pkg.json import/export lists, the collect_equal_types merge and Files iteration do not depend on HashMap iteration order; a hash collection emitted element by element without sorting does (C# world-level enums / function-less resources: findings; the MoonBit instances were repaired in /repo after this check exhibited them). Differential only: each of the 8 generators x option variants generated in 4 separate processes on corpus, directed and random worlds and byte-compared.",
     "note": "Trusted: Coq kernel; extraction + ocaml/determinism_driver.ml; harness detnp (two 64-bit content hashes instead of full bytes in the bulk pass; full bytes for every differing case); regex site scanner in lib/c15_lib.py. The 8 whole generators are NOT modelled.",
 }
